@@ -32,6 +32,7 @@ VOCAB = ['word', 'snake_case', 'a_b_c', 'x_1', 'mid_dle', 'CamelCase', 'e.g.', '
          '1', '12', '2.5', '3.14', '1.a', '1)x', '(1)', '1.', '1)', '2.', '7)', '10.', '0.', '1234567890.', '1234567890)', '-1', '+1', '#1', '#hashtag', '####### seven',
          'C#', 'a#b', 'x-y', 'x+y', 'a=b', 'a|b', 'a~b', 'a^b', '$5', '5%', 'me@x.y', 'http://x.y/z?q=1&r=2', 'www.x.y', 'x.y', '/path/to', '~/home',
          '. x', ') x', '.)', '-x', '+x', '#x', '=x', 'x>', '|x', 'x|', ':-', '-:', '--x', 'x - -', '_', '__', 'a*b', '*x', 'x*', '_x', 'x_', '`',
+         'C:\\2024\\reports', 'a\\1b', 'room\\7', 'dir\\sub', 'x\\ y', '\\d', '\\é', 'build\\3.11',
          'tmp_dir_', '_lead', 'trail_', '2*3', 'a_b_', '_c_d', 'f(*args)', '(_x)', 'x_)', '*.py', 'foo*', '**kw', 'end**']
 VOCAB = sorted(set(VOCAB))
 
@@ -72,8 +73,14 @@ def inert(lines):
         if line_starts_block(l, i == 0):
             return False
     text = '\n'.join(lines)
-    if any(c in text for c in '`\\\t') or '~~' in text:
+    if any(c in text for c in '`\t') or '~~' in text:
         return False
+    # a backslash means something only before an ASCII punctuation character (an escape) or at the end of a line (a hard break):
+    # CommonMark 2.4, 'Backslashes before other characters are treated as literal backslashes'
+    import string as _string
+    for m in re.finditer(r'\\(.?)', text, flags=re.S):
+        if m.group(1) == '' or m.group(1) == '\n' or m.group(1) in _string.punctuation:
+            return False
     if ENTITY.search(text):
         return False
     if re.search(r'<[A-Za-z/!?]', text):
